@@ -17,7 +17,8 @@ RULE = ("a real fbserver.Server per configuration (child process of the harness;
         "DO, client subnet, cookie, NSID, version 1, reserved flag bits), random letter case, whoami name and near misses, "
         "most messages sent over both transports; odd stream (1 in 5): no question, two/three questions, QR set, opcodes "
         "NOTIFY/UPDATE/STATUS/IQUERY, records in the request's answer/authority/additional sections, two OPT records, "
-        "all header flags set; the same wire message is given in-process to a bare FBDNSDB over the same database with the "
+        "all header flags set; fixed part of every run: ANY questions in classes CH, HS, NONE and ANY for names present in the "
+        "database on every refuse-any configuration over both transports (40 cases); the same wire message is given in-process to a bare FBDNSDB over the same database with the "
         "listener's max answer; sections are compared as multisets of (lower-cased owner, type, class, ttl, rdata), the "
         "question section, header bits, id and wire length exactly; "
         "opt-in (environment C20_CACHE_CONFIGS=1, not part of the default run): two configurations with the response cache "
